@@ -21,6 +21,7 @@ def genUnlock (w y : View) : Bool :=
 /-- `handleHighQCVDFAndEvidence`'s replacement test for a replica that holds a lock -/
 def genAdoptOk (w y : View) : Bool :=
   Gen.Bft.adoptHigher true (hdrOf w phase_PROPOSE_VOTE) (hdrOf y phase_PROPOSE_VOTE)
+    (hdrOf ⟨y.root, y.round + 1⟩ Gen.Bft.phase_ELECTION_VOTE)  -- the header of the ELECTION_VOTE that carries it (a later round)
 
 /-- `CheckProposerMessage` on a non-partial PRECOMMIT message fetched by a replica in view `v`
     (`GetProposal` looks it up under the replica's round and phase PRECOMMIT; the replica's root height is
